@@ -172,11 +172,12 @@ type HSOptions struct {
 	MaxIn      int // per processor
 	MaxOut     int
 	MaxPad     int // non-IO instructions per slot
+	MinPad     int // at least this many after every IO instruction (4 keeps clear of the recorded handshake findings)
 	Rsizes     []int
 	ExtraALU   []string // additional two-register opcodes mixed into the padding (e.g. addp, multp)
-	RichALU    bool // also draw the co-implemented logic/shift/carry/pipelined opcodes valid for the register size
-	Replicate  bool // sometimes make a processor an exact replica of an earlier one (same domain)
-	EqualLoops bool // pad every loop to the same length (consumers of a fan-out advance at equal speed)
+	RichALU    bool     // also draw the co-implemented logic/shift/carry/pipelined opcodes valid for the register size
+	Replicate  bool     // sometimes make a processor an exact replica of an earlier one (same domain)
+	EqualLoops bool     // pad every loop to the same length (consumers of a fan-out advance at equal speed)
 	NoFanout   bool
 }
 
@@ -219,6 +220,9 @@ func HandshakeMachine(t *rapid.T, o HSOptions) BMSpec {
 	}
 	if len(o.Rsizes) == 0 {
 		o.Rsizes = []int{8, 16, 32, 64}
+	}
+	if o.MaxPad < o.MinPad {
+		o.MaxPad = o.MinPad
 	}
 	var s BMSpec
 	s.Rsize = rapid.SampledFrom(o.Rsizes).Draw(t, "rsize")
@@ -283,13 +287,13 @@ func HandshakeMachine(t *rapid.T, o HSOptions) BMSpec {
 		loop := len(prog)
 		for k := 0; k < ps.N; k++ {
 			prog = append(prog, fmt.Sprintf("i2rw r%d i%d", rapid.IntRange(0, nreg-1).Draw(t, "rin"), k))
-			for i, n := 0, rapid.IntRange(0, o.MaxPad).Draw(t, "pad"); i < n; i++ {
+			for i, n := 0, rapid.IntRange(o.MinPad, o.MaxPad).Draw(t, "pad"); i < n; i++ {
 				prog = append(prog, genALU(t, nreg, s.Rsize, o.ExtraALU))
 			}
 		}
 		for k := 0; k < ps.M; k++ {
 			prog = append(prog, fmt.Sprintf("r2owa r%d o%d", rapid.IntRange(0, nreg-1).Draw(t, "rout"), k))
-			for i, n := 0, rapid.IntRange(0, o.MaxPad).Draw(t, "pad"); i < n; i++ {
+			for i, n := 0, rapid.IntRange(o.MinPad, o.MaxPad).Draw(t, "pad"); i < n; i++ {
 				prog = append(prog, genALU(t, nreg, s.Rsize, o.ExtraALU))
 			}
 		}
